@@ -107,6 +107,7 @@ def run(idx: Index, rep: Report, tier: str):
     check_idle_and_initial_state(idx, rep, dispatches["cirq"])
     from ..rules.chunks import check_chunk_sum
     check_chunk_sum(rep, "K9.shot-conservation", idx.function(f"{BACKEND}::Backend._statevector_to_frequencies"), "self.n_shots")
+    check_probability_cutoffs(idx, rep)
 
 
 def _sev(rep: Report, fmt: str):
@@ -648,3 +649,60 @@ def check_idle_and_initial_state(idx: Index, rep: Report, d: tr.Dispatch):
                        what="an empty circuit applied to a user initial state returns that state", reason="empty-circuit shortcut ignores the initial statevector")
     if not found:
         rep.info(rule, bs, bs.node, text="no empty-circuit shortcut", reason="not present")
+
+
+# ---------------------------------------------------------------------------------------------------
+_CUTOFF_EXAMPLE = '''
+def f(self, measurements):
+    frequencies = dict()
+    for vec, prob in measurements:
+        prob = prob.evalf(chop=1e-4)
+        if prob > 1e-6:
+            frequencies[vec] = round(prob, 6)
+    return frequencies
+'''
+
+
+def _cutoff_sites(fn: ast.AST) -> List[Tuple[ast.AST, str]]:
+    """places where a probability / frequency / amplitude is numerically cut: `chop=` arguments, rounding calls, comparisons with a literal
+    threshold above the documented 1e-10"""
+    out = []
+    PROB = ("prob", "freq", "amplitude")
+    for n in ast.walk(fn):
+        if isinstance(n, ast.Call):
+            for k in n.keywords:
+                if k.arg == "chop" and not (isinstance(k.value, ast.Constant) and k.value.value is False):
+                    out.append((n, f"`{norm(n)[:60]}` chops small values ({norm(k.value)})"))
+            if norm(n.func) in ("round", "np.round", "np.around", "numpy.round") and n.args and any(p in norm(n.args[0]).lower() for p in PROB):
+                out.append((n, f"`{norm(n)[:60]}` rounds a probability"))
+        if isinstance(n, ast.Compare) and len(n.ops) == 1 and isinstance(n.ops[0], (ast.Gt, ast.GtE, ast.Lt, ast.LtE)):
+            sides = [n.left, n.comparators[0]]
+            lits = [x for x in sides if isinstance(x, ast.Constant) and isinstance(x.value, (int, float)) and not isinstance(x.value, bool)]
+            others = [x for x in sides if x not in lits]
+            if len(lits) == 1 and others and any(p in norm(others[0]).lower() for p in PROB) and "sqrt_probability" not in norm(others[0]) and 1e-10 < abs(lits[0].value) < 1:
+                out.append((n, f"`{norm(n)[:60]}` compares a probability with the literal {lits[0].value}"))
+    return out
+
+
+def check_probability_cutoffs(idx: Index, rep: Report):
+    """The returned distribution is the Born distribution: an outcome may be left out only below the backend's documented frequency threshold
+    (1e-10, `self.freq_threshold`) or when it is exactly zero.  Any other numeric cut applied to a probability while the frequencies are built -
+    chopping, rounding, a literal threshold - silently removes outcomes that should be there."""
+    rule = "K9.probability-cutoff"
+    ex = _cutoff_sites(ast.parse(_CUTOFF_EXAMPLE))
+    if len(ex) != 3:
+        raise AnalysisError(f"probability-cutoff rule self-check failed: built-in example gives {len(ex)} sites")
+    n = 0
+    for rel in (BACKEND, TCIRQ, TSYMPY):
+        m = idx.module_by_relpath(rel)
+        for f in m.functions.values():
+            if not any(k in f.name for k in ("simulate", "frequencies", "freq")):
+                continue
+            n += 1
+            sites = _cutoff_sites(f.node)
+            if not sites:
+                rep.ok(rule, f, f.node, text=f"{f.qualname}: no numeric cut on probabilities", what="outcomes are dropped only below the documented threshold or when exactly zero")
+            for node, why in sites:
+                rep.violation(rule, f, node, text=f"{f.qualname}: {norm(node)[:70]}", what="outcomes are dropped only below the documented threshold (1e-10) or when exactly zero",
+                              reason=why + ": outcomes with a small but real probability disappear and the distribution no longer sums to one")
+    rep.floor("simulate / frequency functions scanned for cut-offs", n, 6)
